@@ -28,6 +28,11 @@ def new? (xs : List α) : Option (Gen.Empirical α) :=
   | [] => none
   | x0 :: _ => some { xs := s, range := (x0, idxR s (s.length - 1)) }
 
+/-- empirical.rs:60-62 `Parameterized::from_params(params) = Self::new(params.xs)`: the parameter object's public `xs` need not
+    be sorted (it may have been edited after `emit_params`); the constructor sorts it and recomputes the range.
+    `Gen.Empirical.emit_params` (generated) hands out the sorted sample. -/
+def fromParams? (params : Gen.EmpiricalParameters α) : Option (Gen.Empirical α) := new? params.xs
+
 /-- empirical.rs:77-87 -/
 def pos (self : Gen.Empirical α) (x : α) : Pos :=
   if RealLike.lt x self.range.1 then Pos.first
